@@ -19,7 +19,7 @@ PLACEHOLDERS = (PTS, PTS_X, ARR_COL, ARR_ROW, NP_ALPHA)
 
 DOMAIN = {
     "quantized_bits": {
-        "bits": [4, 2], "integer": [2, 1], "symmetric": [1], "keep_negative": [False],
+        "bits": [4, 2], "integer": [2, 1, -2], "symmetric": [1], "keep_negative": [False],
         "alpha": [2.0, 2.0 ** -10, "auto", "auto_po2", NP_ALPHA], "use_stochastic_rounding": [True],
         "scale_axis": [0], "qnoise_factor": [0.5, 0.0], "var_name": ["vq"], "use_ste": [False],
         "use_variables": [True], "elements_per_scale": [2], "min_po2_exponent": [-2, 0],
@@ -58,7 +58,7 @@ DOMAIN = {
         "var_name": ["vq"], "use_ste": [False], "use_variables": [True],
     },
     "quantized_hswish": {
-        "bits": [6, 4], "integer": [2, 1], "symmetric": [1], "alpha": [2.0, "auto", "auto_po2"], "use_stochastic_rounding": [True],
+        "bits": [6, 4], "integer": [2, 1, -1], "symmetric": [1], "alpha": [2.0, "auto", "auto_po2"], "use_stochastic_rounding": [True],
         "scale_axis": [0], "qnoise_factor": [0.5], "var_name": ["vq"], "use_variables": [True],
         "relu_shift": [2], "relu_upper_bound": [4],
     },
